@@ -94,13 +94,13 @@ def correspond(ctx):
 # ---- parse level: reported locations index the parsed string -------------------------------------------------------------
 def parse_level_cases():
     import pyparsing as pp
-    W = pp.Word("ab")
-    num = pp.Word("12")
+    W = lambda: pp.Word("ab")          # fresh objects per use: root settings and debug flags must not leak between cases
+    num = lambda: pp.Word("12")
     exprs = [
-        ("word", lambda: W), ("seq", lambda: W + num), ("group", lambda: pp.Group(W + pp.Opt(num))), ("alt", lambda: num | W),
-        ("rep", lambda: pp.OneOrMore(W | num)), ("lit", lambda: pp.Literal("ab") + pp.Literal("1")),
-        ("notin", lambda: pp.CharsNotIn(" \n") + W), ("delim", lambda: pp.DelimitedList(W)),
-        ("nested", lambda: pp.Group("(" + pp.ZeroOrMore(W) + ")") | W),
+        ("word", lambda: W()), ("seq", lambda: W() + num()), ("group", lambda: pp.Group(W() + pp.Opt(num()))), ("alt", lambda: num() | W()),
+        ("rep", lambda: pp.OneOrMore(W() | num())), ("lit", lambda: pp.Literal("ab") + pp.Literal("1")),
+        ("notin", lambda: pp.CharsNotIn(" \n") + W()), ("delim", lambda: pp.DelimitedList(W())),
+        ("nested", lambda: pp.Group("(" + pp.ZeroOrMore(W()) + ")") | W()),
     ]
     inputs = ["ab 12", "\tab\t12", "a\nb", "  ab", "ab\t\tba 1", "\n\tb 2\n", "a\tb", "(a\tb)", "a,\tb", "12\tab\n\tab", "x\tab"]
     return exprs, inputs
@@ -110,68 +110,76 @@ def parse_level_oracle(ctx):
     import pyparsing as pp
     exprs, inputs = parse_level_cases()
     for name, mk in exprs:
-        for keep in (False, True):
-            for inp in inputs:
-                base = mk()
-                parsed = inp if keep else inp.expandtabs()
-                seen = []
+        for dbg in (False, True):
+            for keep in (False, True):
+                for inp in inputs:
+                    base = mk().copy()          # root-level settings (parse_with_tabs, debug) must not leak into the shared pool objects
+                    parsed = inp if keep else inp.expandtabs()
+                    seen = []
 
-                def rec_action(s, l, t):
-                    seen.append((s, l, list(t)))
-                leaf = pp.Word("ab").add_parse_action(rec_action)
-                g = pp.OneOrMore(leaf | pp.Word("12") | pp.one_of("( ) ,"))
-                loc_e = pp.Located(mk())
-                otf = pp.original_text_for(mk())
-                if keep:
-                    for x in (g, loc_e, otf, base):
-                        x.parse_with_tabs()
-                key = "parse|%s|%s|%r" % (name, keep, inp)
-                bad = None
-                try:
-                    # (1) action locations index the parsed string and the token is the slice at that location
+                    def rec_action(s, l, t):
+                        seen.append((s, l, list(t)))
+                    leaf = pp.Word("ab").add_parse_action(rec_action)
+                    g = pp.OneOrMore(leaf | pp.Word("12") | pp.one_of("( ) ,"))
+                    loc_e = pp.Located(mk().copy())
+                    otf = pp.original_text_for(mk().copy())
+                    if keep:
+                        for x in (g, loc_e, otf, base):
+                            x.parse_with_tabs()
+                    if dbg:
+                        # the debug / fail-action branch of _parseNoCache must report the same locations (quiet debug actions on every node)
+                        quiet = lambda *a: None
+                        for x in (g, loc_e, otf, base):
+                            for node in x.visit_all():
+                                node.set_debug_actions(quiet, quiet, quiet)
+                    key = "parse|%s|%s|%r|%d" % (name, keep, inp, dbg)
+                    bad = None
                     try:
-                        g.parse_string(inp)
-                    except pp.ParseBaseException:
-                        pass
-                    for (s_, l, t) in seen:
-                        if s_ != parsed:
-                            bad = "the string handed to the action is not the parsed string"
-                        elif not (0 <= l <= len(parsed)) or parsed[l:l + len(t[0])] != t[0]:
-                            bad = "action loc %d does not index the token %r in %r" % (l, t[0], parsed)
-                    # (2) scan_string: slice start..end is what original_text_for returns there, and Located agrees
-                    for toks, st, en in base.scan_string(inp):
-                        if not (0 <= st <= en <= len(parsed)):
-                            bad = "scan_string reports (%d,%d) outside the parsed string" % (st, en)
-                            continue
+                        # (1) action locations index the parsed string and the token is the slice at that location
                         try:
-                            o = otf.parse_string(parsed[st:] if keep or "\t" not in parsed[st:] else parsed[st:])
-                            if o[0] != parsed[st:en] and base.parse_string(parsed[st:]).as_list() == toks.as_list():
-                                bad = "original_text_for gives %r, the slice %d..%d is %r" % (o[0], st, en, parsed[st:en])
+                            g.parse_string(inp)
                         except pp.ParseBaseException:
                             pass
-                    # (3) Located: locn_start..locn_end delimit the matched text
-                    try:
-                        r = loc_e.parse_string(inp)
-                        st, en = r["locn_start"], r["locn_end"]
-                        if not (0 <= st <= en <= len(parsed)):
-                            bad = "Located reports (%d,%d) outside the parsed string" % (st, en)
-                        else:
+                        for (s_, l, t) in seen:
+                            if s_ != parsed:
+                                bad = "the string handed to the action is not the parsed string"
+                            elif not (0 <= l <= len(parsed)) or parsed[l:l + len(t[0])] != t[0]:
+                                bad = "action loc %d does not index the token %r in %r" % (l, t[0], parsed)
+                        # (2) scan_string: slice start..end is what original_text_for returns there, and Located agrees
+                        for toks, st, en in base.scan_string(inp):
+                            if not (0 <= st <= en <= len(parsed)):
+                                bad = "scan_string reports (%d,%d) outside the parsed string" % (st, en)
+                                continue
                             try:
-                                # (a MatchFirst/Or does not pre-parse, so Located may start before the skipped whitespace)
-                                if otf.parse_string(inp)[0] != parsed[st:en].lstrip(" \t\n\r"):
-                                    bad = "original_text_for %r != parsed[%d:%d] %r" % (otf.parse_string(inp)[0], st, en, parsed[st:en])
+                                o = otf.parse_string(parsed[st:] if keep or "\t" not in parsed[st:] else parsed[st:])
+                                if o[0] != parsed[st:en] and base.parse_string(parsed[st:]).as_list() == toks.as_list():
+                                    bad = "original_text_for gives %r, the slice %d..%d is %r" % (o[0], st, en, parsed[st:en])
                             except pp.ParseBaseException:
                                 pass
-                    except pp.ParseBaseException as e:
-                        if not (0 <= e.loc <= len(parsed)):
-                            bad = "exception loc %d outside the parsed string" % e.loc
-                except Exception as ex:
-                    bad = "internal %s: %s" % (type(ex).__name__, ex)
-                ctx.case(key, nontrivial=("\t" in inp or "\n" in inp), agreed=True)
-                if bad:
-                    ctx.violation("parse-level:%s|%s|%r" % (name, keep, inp), "%s keep_tabs=%s on %r: %s" % (name, keep, inp, bad),
-                                  {"kind": "parse-level", "name": name, "keep": keep, "input": inp})
-    ctx.stat("parse_level_cases", len(exprs) * 2 * len(inputs))
+                        # (3) Located: locn_start..locn_end delimit the matched text
+                        try:
+                            r = loc_e.parse_string(inp)
+                            st, en = r["locn_start"], r["locn_end"]
+                            if not (0 <= st <= en <= len(parsed)):
+                                bad = "Located reports (%d,%d) outside the parsed string" % (st, en)
+                            else:
+                                try:
+                                    # (a MatchFirst/Or does not pre-parse, so Located may start before the skipped whitespace)
+                                    if otf.parse_string(inp)[0] != parsed[st:en].lstrip(" \t\n\r"):
+                                        bad = "original_text_for %r != parsed[%d:%d] %r" % (otf.parse_string(inp)[0], st, en, parsed[st:en])
+                                except pp.ParseBaseException:
+                                    pass
+                        except pp.ParseBaseException as e:
+                            if not (0 <= e.loc <= len(parsed)):
+                                bad = "exception loc %d outside the parsed string" % e.loc
+                    except Exception as ex:
+                        bad = "internal %s: %s" % (type(ex).__name__, ex)
+                    ctx.case(key, nontrivial=("\t" in inp or "\n" in inp), agreed=True)
+                    if bad:
+                        ctx.violation("parse-level:%s|%s|%r%s" % (name, keep, inp, "|debug" if dbg else ""),
+                                      "%s keep_tabs=%s%s on %r: %s" % (name, keep, " with debug actions set" if dbg else "", inp, bad),
+                                      {"kind": "parse-level", "name": name, "keep": keep, "input": inp})
+    ctx.stat("parse_level_cases", len(exprs) * 4 * len(inputs))
 
 
 def search(ctx, reasons):
